@@ -782,6 +782,34 @@ handle_harness_one! { fam = false;
     }
 }
 
+// quick-tier regression obligation of the repaired defect, with the policy outcome fixed ("passes
+// both lists, not rate limited", the only one under which the defect answered): a packet in any
+// non-client mode whose NTS fields fail to decrypt (or a plain non-client packet) is ignored.
+handle_harness_one! { fam = false;
+    fn c15_tb_nonclient_with_failing_nts_is_ignored() {
+        let (mut srv, _cfg) = any_server(0);
+        let ip = any_ip();
+        arm_ghosts(&srv, ip, false);
+        IN_DENY.store(false, Relaxed);
+        IN_ALLOW.store(true, Relaxed);
+        CACHE_RES.store(true, Relaxed);
+        let g = GEN_KIND.load(Relaxed);
+        kani::assume(g == GEN_PLAIN || g == GEN_DECRYPT_ERR);
+        kani::assume(MODE.load(Relaxed) != 3);
+        let msg = [0x23u8; MSG_MAX];
+        let mut stats = RecStats;
+        let r = srv.handle_inner(ip, NtpTimestamp::from_bits(kani::any()), &msg[..], &mut stats);
+        let ignored = matches!(r, Err(ServerAction::Ignore));
+        core::mem::forget(r);
+        assert!(ignored, "non-client packet: never answered");
+        assert!(BUILT.load(Relaxed) == B_NONE, "non-client packet: no response built");
+        assert!(REG_CALLS.load(Relaxed) == 1 && REG_RESPONSE.load(Relaxed) == S_IGNORE);
+        kani::cover!(g == GEN_DECRYPT_ERR && MODE.load(Relaxed) == 4, "server-mode packet with failing NTS fields");
+        kani::cover!(g == GEN_PLAIN && MODE.load(Relaxed) == 1, "symmetric-active packet");
+        core::mem::forget(srv);
+    }
+}
+
 handle_harness! {
     // positive clause: well-formed accepted-version client request passing both lists and the limiter receives time
     fn c15_tp_handle_serves_time_plain() fn c15_tp_handle_serves_time_nts() with fam {
